@@ -497,8 +497,15 @@ def register(reg):
                     out += '{' + text(n.fields['nodelist']) + '}'
             return out
         DOCS = [['a=1,b=2'], ['a=1,a=2,a=3'], ['x=', ('p,q',), ',y'], ['=v'], ['k='], ['a==b'], ['a = 1 , b'], [''], [',,a'], ['a=', ('1',), 'z'],
-                ['a=,a=1'], ['a=', ('',), ',a=1,a=2'], ['a,a=1,a='], ['k=,k=,k=v']]     # a repeated key whose earlier value is empty
+                ['a=,a=1'], ['a=', ('',), ',a=1,a=2'], ['a,a=1,a='], ['k=,k=,k=v'],     # a repeated key whose earlier value is empty
+                ['k=', ('a',), ',j=x,k=b,k=', ('c',)], ['k=', ('a',), ',k=', ('b',)]]    # a repeated key whose earlier value is a braced group
         bad = []
+        changed = []
+
+        def shape(nl):
+            # everything reachable from the input list: identities, order and lengths of every child list, the characters
+            return tuple((id(n), n.cls.name, n.fields['chars'] if n.cls.name == 'LatexCharsNode' else shape(n.fields['nodelist']))
+                         for n in part_items(nl) if n is not None)
         for pieces in DOCS:
             for pol in ('first', 'last', 'concatenate', 'error'):
                 lst = build(pieces)
@@ -507,8 +514,17 @@ def register(reg):
                     kv = it.call_method(part, 'split_at_chars', ['='], {'max_split': 1, 'keep_empty': True}).items
                     pairs.append((text(kv[0]) if False else it.call_method(kv[0], 'get_content_as_chars', [], {}), kv[1] if len(kv) > 1 else None))
                 keys = [k for k, _v in pairs]
+                inp = build(pieces)
+                before = (shape(inp), text(inp))
                 try:
-                    r = it.call_method(build(pieces), 'parse_keyval_content', [], {'repeated_key_aggregate_action': pol})
+                    r = it.call_method(inp, 'parse_keyval_content', [], {'repeated_key_aggregate_action': pol})
+                    if (shape(inp), text(inp)) != before:
+                        changed.append((pieces, pol, 'the list reads %r after the call' % text(inp)))
+                    else:
+                        # ... and a second call on the same list gives the same keys and texts
+                        r2 = it.call_method(inp, 'parse_keyval_content', [], {'repeated_key_aggregate_action': pol})
+                        if [(k, text(v)) for k, v in r.items.items()] != [(k, text(v)) for k, v in r2.items.items()]:
+                            changed.append((pieces, pol, 'a second call answers differently'))
                 except PyExc as e:
                     if e.value.cls.name == 'ValueError' and pol == 'error' and len(set(keys)) < len(keys):
                         continue
@@ -538,7 +554,9 @@ def register(reg):
                     if text(v) != want:
                         bad.append((pieces, pol, 'value of %r reads %r, the policy gives %r' % (k, text(v), want)))
         ctx.prove('parse_keyval_content: keys and values agree with splitting at the commas and then at the first equals sign, for the four '
-                  'repeated-key policies (14 texts, run on the real code)', not bad, 'post', src='offending: %r' % bad[:4])
+                  'repeated-key policies (16 texts, run on the real code)', not bad, 'post', src='offending: %r' % bad[:4])
+        ctx.prove('parse_keyval_content: the list it is called on, and every node and child list reachable from it, is left as it was '
+                  '(16 texts, run on the real code)', not changed, 'frame', src='offending: %r' % changed[:4])
     units['parse_keyval_content[concrete texts]'] = LemmaUnit('parse_keyval_content[concrete texts]', lemma_keyval,
                                                               functions=[NL + '.parse_keyval_content'])
     for k in units:
@@ -629,8 +647,25 @@ def search():
                 if ms is not None and len(parts) > ms + 1:
                     return "split_at_node(max_split=%r) of %r made %d splits" % (ms, d, len(parts) - 1)
     # key-value parsing agrees with the two splits; repeated-key policies
-    for d in ("a=1,b=2", "a=1,a=2,a=3", "x={p,q},y", "=v", "k=", "a==b", "a = 1 , b", "a={1}2,b=3", "k={1}x,k={2}"):
+    def tree(x):
+        return [(id(n), type(n).__name__, getattr(n, "chars", None),
+                 tree(n.nodelist) if getattr(n, "nodelist", None) is not None else None) for n in x if n is not None]
+    for d in ("a=1,b=2", "a=1,a=2,a=3", "x={p,q},y", "=v", "k=", "a==b", "a = 1 , b", "a={1}2,b=3", "k={1}x,k={2}", "k={a},j=x,k=b,k={c}", "k={a},k={b}"):
         for pol in ("first", "last", "concatenate", "error"):
+            lst = nl(d)
+            before = tree(lst)
+            try:
+                r1 = lst.parse_keyval_content(repeated_key_aggregate_action=pol)
+                if tree(lst) != before:
+                    return "parse_keyval_content(%r) of %r changed the node list it was called on (children now read %r)" % (
+                        pol, d, ["".join(c.latex_verbatim() for c in n.nodelist) for n in lst if getattr(n, "nodelist", None) is not None])
+                r2 = lst.parse_keyval_content(repeated_key_aggregate_action=pol)
+                t1 = [(k, "".join(n.latex_verbatim() for n in v if n is not None)) for k, v in r1.items()]
+                t2 = [(k, "".join(n.latex_verbatim() for n in v if n is not None)) for k, v in r2.items()]
+                if t1 != t2:
+                    return "parse_keyval_content(%r) of %r called twice on the same list: first %r, then %r" % (pol, d, t1, t2)
+            except Exception:
+                pass        # exceptions are judged below
             lst = nl(d)
             pairs = []
             for part in lst.split_at_chars(","):
